@@ -135,6 +135,20 @@ theorem C02_old_alias_lookup_by_node :
     aliasFindByNode [⟨"SID".toList, true⟩] ⟨"sid".toList, false⟩ = none ∧
     aliasFind [⟨"SID".toList, true⟩] ⟨"sid".toList, false⟩ = some ⟨"SID".toList, true⟩ := by decide
 
+/-- **Names given through `IDENTIFIER('…')`**: since the repair `C02/identifier-function-not-folded` the identifier the
+    transform yields goes through the fold like any other, so its name is the upper-cased literal — whereas the
+    transform used to run after the fold and handed the literal on as written (regression witness: the object created
+    by `identifier('customers')` was stored, and listed, as `customers`). -/
+theorem C02_identifier_function_folded (lit lit' : List Char) (h : upper lit = upper lit') :
+    canon (.ident ⟨lit, false⟩) = canon (.ident ⟨lit', false⟩) ∧
+    canon (.ident ⟨"customers".toList, false⟩) = .ident ⟨"CUSTOMERS".toList, false⟩ ∧
+    (⟨"customers".toList, false⟩ : Ident).raw ≠ (⟨"customers".toList, false⟩ : Ident).norm := by
+  refine ⟨by simp [canon, Ident.norm, h], ?_, by decide⟩
+  have hu : upper "customers".toList = "CUSTOMERS".toList := by decide
+  show Node.ident ⟨(⟨"customers".toList, false⟩ : Ident).norm, false⟩ = _
+  have : (⟨"customers".toList, false⟩ : Ident).norm = "CUSTOMERS".toList := hu
+  rw [this]
+
 /-! non-vacuity -/
 def stmtA : Node := .node 1 [.kwFolded "schema".toList, .node 2 [.ident ⟨"db1".toList, false⟩, .ident ⟨"My S".toList, true⟩], .lit "x".toList]
 def stmtB : Node := .node 1 [.kwFolded "SCHEMA".toList, .node 2 [.ident ⟨"Db1".toList, false⟩, .ident ⟨"My S".toList, true⟩], .lit "x".toList]
